@@ -263,6 +263,40 @@ class RouterWorld(World):
             if r < 1.0:
                 return Scaled(0, 0.0, 1.0, one=False, terms=[a.tag], desc="%s/%s" % (a.tag, b.tag))
             return Scaled(0, 1.0, INF, one=False, terms=[a.tag], desc="%s/%s" % (a.tag, b.tag))
+        for x in (a, b):
+            if isinstance(x, Scaled) and x.deg == "nan":
+                return x            # a hazard was already recorded on this path: NaN propagates
+        if op == "/" and bk == "slope" and isinstance(a, (int, float)) and not isinstance(a, bool) and a > 0:
+            # reciprocal of a slope: overflows to +inf when the slope is subnormal
+            if b.data <= 0.0:
+                self.hazard("reciprocal of a slope that may be zero (%s)" % (b.tag,))
+                return Scaled("nan", 0.0, INF)
+            if b.data <= DBL_MIN:
+                self.hazard("reciprocal of a subnormal slope overflows to inf (1 / %s): the scaled weights "
+                            "become inf / inf = NaN" % (b.tag,))
+                return Scaled("nan", 0.0, INF)
+            r = Scaled(-1, 0.0, INF, terms=[b.tag], desc="1/%s" % (b.tag,))
+            r.recip = b
+            return r
+        if op == "*" and ((ak == "slope" and isinstance(b, Scaled) and b.deg == -1) or
+                          (bk == "slope" and isinstance(a, Scaled) and a.deg == -1)):
+            sl, rc = (a, b) if ak == "slope" else (b, a)
+            den = getattr(rc, "recip", None)
+            if den is None:
+                raise AnalysisBroken("router model: product with an unknown reciprocal")
+            # same classes as the quotient of the two slopes (x * (1/x) is 1 within one rounding: the
+            # interval is kept closed at 1 but the `one` lemma is NOT available)
+            r = sl.data / den.data
+            if r <= 1.0:
+                return Scaled(0, 0.0, 1.0, one=False, terms=[sl.tag], desc="%s*(1/%s)" % (sl.tag, den.tag))
+            return Scaled(0, 1.0, INF, one=False, terms=[sl.tag], desc="%s*(1/%s)" % (sl.tag, den.tag))
+        if op in ("+", "/") and (ak == "slope" or bk == "slope"):
+            # raw slopes used as weights: quantities of unknown magnitude (degree 1)
+            def raw(x):
+                if isinstance(x, Sym) and x.kind == "slope":
+                    return Scaled(1, 0.0, INF, terms=[x.tag], desc="slope(%s)" % (x.tag,))
+                return x
+            return self.scaled_arith(op, raw(a), raw(b))
         if isinstance(a, Scaled) or isinstance(b, Scaled):
             return self.scaled_arith(op, a, b)
         raise AnalysisBroken("router model: un-whitelisted operation %r %s %r" % (a, op, b))
